@@ -178,6 +178,9 @@ def check_case(spec: dict) -> dict:
         # expressions as regex_exclusions=... alone
         plain_alone = scan_outcome(base, exclusions=())
         r_alone = scan_outcome(base, regex_exclusions=tuple(regexes))
+        # one pattern given as a plain string, as the documentation's example does
+        g_str = scan_outcome(base, exclusions=globs[0]) if len(globs) == 1 else None
+        r_str = scan_outcome(base, regex_exclusions=regexes[0]) if len(regexes) == 1 else None
         # external libraries included: an import of an excluded internal module must not bring that module back
         x_run = scan_outcome(base, exclusions=tuple(globs), exclude_external_libraries=False)
 
@@ -216,6 +219,10 @@ def check_case(spec: dict) -> dict:
     if r_run[0] == "ok" and (r_alone[0] != "ok" or r_alone[1] != r_run[1]):
         v("regex/regex_exclusions-alone", f"regex_exclusions={regexes} alone gives {r_alone[1] if r_alone[0] != 'ok' else 'another architecture'}, "
           "together with exclusions=() it is applied")
+    for name, got, want in (("exclusions", g_str, g_run), ("regex_exclusions", r_str, r_run)):
+        if got is not None and want[0] == "ok" and (got[0] != "ok" or got[1] != want[1]):
+            v(f"single-pattern-as-str/{name}", f"{name}=<the pattern as a plain str> gives {got[1] if got[0] != 'ok' else sorted(got[1][0])[:8]}, "
+              f"the same pattern in a tuple gives {sorted(want[1][0])[:8]}")
     shapes = sorted({("*" if g.startswith("*") else "") + "text" + ("*" if g.endswith("*") else "") for g in spec["globs"]})
     for name, run in (("glob", g_run), ("regex", r_run)):
         if run[0] != "ok":
